@@ -4,14 +4,15 @@
 id=$1; name=${2:-$1}; wt=/tmp/seed/$id
 cd $wt || exit 1
 mkdir -p /verif/seeded/$name
-git diff -- crates src > /verif/seeded/$name/patch.diff
+git diff -- crates/core/src crates/macros/src src > /verif/seeded/$name/patch.diff
 cp crates/core/tests/seed_demo.rs /verif/seeded/$name/seed_demo.rs
 [ -f SEED_REPORT.md ] && cp SEED_REPORT.md /verif/seeded/$name/SEED_REPORT.md
 mv crates/core/tests/seed_demo.rs /tmp/seed/$id.demo.rs
-suite=$(cargo test --workspace --offline 2>&1 | grep "test result" | awk '{p+=$4; f+=$6} END {print p" passed "f" failed"}')
+touch crates/core/src/lib.rs; suite=$(cargo test --workspace --offline 2>&1 | grep "test result" | awk '{p+=$4; f+=$6} END {print p" passed "f" failed"}')
 mv /tmp/seed/$id.demo.rs crates/core/tests/seed_demo.rs
-with=$(cargo test -p iref-core --offline --test seed_demo 2>&1 | grep "test result" | head -1)
+touch crates/core/src/lib.rs; with=$(cargo test -p iref-core --offline --features data,serde --test seed_demo 2>&1 | grep "test result" | head -1)
 git stash -q
-without=$(cargo test -p iref-core --offline --test seed_demo 2>&1 | grep "test result" | head -1)
+touch crates/core/src/lib.rs; without=$(cargo test -p iref-core --offline --features data,serde --test seed_demo 2>&1 | grep "test result" | head -1)
 git stash pop -q
+touch crates/core/src/lib.rs
 echo "$name: suite-with-change: $suite | demo with change: $with | demo without: $without"
